@@ -83,14 +83,12 @@ def Fault.applies (O : Oracles) (w : World) (src : ClassSrc) : Fault → Bool
     w.blockConsts && blockedAttr a && !knownAttrs.contains n && !isDunder n && !isCustomAttr n
   | .bareType n a => w.blockNonTypedpy && nonTypedpyType a && !isSunder n && !isDunder n
 
-/-- the regions in which the code today lets the fault through (known findings):
-    a falsy `default=` is never validated (`if default:` in `Field.__init__`), a truthy valid
-    mutable literal given to a Field-class annotation is not refused, and a PEP 604 union of bare
-    types is neither a `type` nor a generic for the non-typedpy-assignment guard -/
+/-- the two regions in which the code today lets the fault through (known findings):
+    a falsy `default=` is never validated (`if default:` in `Field.__init__`), and a truthy valid
+    mutable literal given to a Field-class annotation is not refused -/
 def Fault.knownHole (O : Oracles) : Fault → Bool
   | .defaultKw _ _ v => !v.truthy
   | .mutableClassForm _ d v => pyTruthy v && !isError (validate O d v)
-  | .bareType _ a => a == .union
   | _ => false
 
 end Typedpy
